@@ -338,8 +338,111 @@ func c1Taint(c *Ctx, rule string) {
 
 // inQuotes: call is preceded on every path by an AppendByte('"') and followed on every path by one.
 func inQuotes(c *Ctx, fn *ssa.Function, call ssa.Instruction) bool {
+	if fn.Parent() != nil {
+		// a function literal handed to a helper that runs it between two quote bytes (appendQuoted(func() {…})) starts
+		// inside the string literal
+		if s0, ok := literalEntryQuote(c, fn, 0); ok && s0 != 0 {
+			quoteEntry[fn] = s0
+			defer delete(quoteEntry, fn)
+		}
+	}
 	at, _, _ := quoteFlow(c, fn, 0)
 	return at[call] == 1
+}
+
+// quoteEntry: the state quoteFlow starts a function in (0 unless set).
+var quoteEntry = map[*ssa.Function]int{}
+
+// literalEntryQuote: the quote state in which the function literal lit starts to run, when that is evident: its only use
+// is as an argument of a call to a helper of the package which does nothing with the parameter but call it, always in
+// the same state, and the call of the helper sits in a known state of the enclosing function.
+func literalEntryQuote(c *Ctx, lit *ssa.Function, depth int) (int, bool) {
+	par := lit.Parent()
+	if par == nil {
+		return 0, true
+	}
+	if depth > 2 {
+		return 0, false
+	}
+	var mk *ssa.MakeClosure
+	AllInstrs(par, func(i ssa.Instruction) {
+		if m, ok := i.(*ssa.MakeClosure); ok && m.Fn == ssa.Value(lit) {
+			mk = m
+		}
+	})
+	if mk == nil || mk.Referrers() == nil {
+		return 0, false
+	}
+	var site *ssa.Call
+	for _, r := range *mk.Referrers() {
+		switch x := r.(type) {
+		case *ssa.DebugRef:
+		case *ssa.Call:
+			if site != nil {
+				return 0, false
+			}
+			site = x
+		default:
+			return 0, false
+		}
+	}
+	if site == nil {
+		return 0, false
+	}
+	h := site.Call.StaticCallee()
+	if h == nil || h.Pkg != par.Pkg || len(h.Blocks) == 0 {
+		return 0, false
+	}
+	k := -1
+	for i, a := range site.Call.Args {
+		if a == ssa.Value(mk) {
+			k = i
+		}
+	}
+	if k < 0 || k >= len(h.Params) || h.Params[k].Referrers() == nil {
+		return 0, false
+	}
+	hat, hexit, _ := quoteFlow(c, h, 1)
+	inner := -2
+	for _, r := range *h.Params[k].Referrers() {
+		switch x := r.(type) {
+		case *ssa.DebugRef:
+		case *ssa.Call:
+			if x.Call.Value != ssa.Value(h.Params[k]) {
+				return 0, false
+			}
+			st := hat[x]
+			if inner != -2 && inner != st {
+				return 0, false
+			}
+			inner = st
+		default:
+			return 0, false
+		}
+	}
+	if inner < 0 || hexit != 0 {
+		return 0, false
+	}
+	// the state of the enclosing function at the helper call (itself possibly a literal)
+	if s0, ok := literalEntryQuote(c, par, depth+1); ok && s0 != 0 {
+		quoteEntry[par] = s0
+		defer delete(quoteEntry, par)
+	} else if !ok {
+		return 0, false
+	}
+	pat, _, _ := quoteFlow(c, par, 1)
+	ps := pat[site]
+	if ps < 0 {
+		return 0, false
+	}
+	// the literal itself must leave the state as it found it, or the helper's own accounting would be off
+	quoteEntry[lit] = 0
+	_, lexit, _ := quoteFlow(c, lit, 1)
+	delete(quoteEntry, lit)
+	if lexit != 0 {
+		return 0, false
+	}
+	return (ps + inner) % 2, true
 }
 
 // constWrite: in writes constant text (one of finitely many constants) to an encoder buffer.
@@ -389,7 +492,7 @@ func quoteFlow(c *Ctx, fn *ssa.Function, depth int) (at map[ssa.Instruction]int,
 	if len(fn.Blocks) == 0 {
 		return at, 0, 0
 	}
-	in := map[*ssa.BasicBlock]int{fn.Blocks[0]: 0}
+	in := map[*ssa.BasicBlock]int{fn.Blocks[0]: quoteEntry[fn]}
 	seen := map[*ssa.BasicBlock]bool{}
 	work := []*ssa.BasicBlock{fn.Blocks[0]}
 	exit = -2
@@ -1080,13 +1183,26 @@ func c1Pairing(c *Ctx, rule string) {
 		}
 		seqs, trunc := ConcPaths(ee, ConcCfg{
 			Prune: true, MaxStates: 400000,
-			Inline: func(h *ssa.Function) bool { return frame[h] },
+			Inline:    func(h *ssa.Function) bool { return frame[h] || writes[h] && returnsJSONEncoder(c, h) },
+			InlineAny: func(h *ssa.Function) bool { return writes[h] && returnsJSONEncoder(c, h) },
 			Event: func(in ssa.Instruction, st *ConcState) string {
 				cl, isCall := in.(*ssa.Call)
 				if !isCall {
 					return ""
 				}
 				if f := CalleeFunc(cl); f != nil {
+					if f.Pkg() != nil && f.Pkg().Path() == "go.uber.org/zap/buffer" && (FNm(f) == "Write" || FNm(f) == "AppendBytes") {
+						if args := Args(cl); len(args) == 2 {
+							if n, known := st.IsNil(args[1]); known && n {
+								return "" // a nil slice: nothing is written (cloneWith(nil))
+							}
+							for k, v := 0, args[1]; k < 8 && v != nil; k, v = k+1, st.Step(v) {
+								if kc, isC := v.(*ssa.Const); isC && kc.Value == nil {
+									return ""
+								}
+							}
+						}
+					}
 					switch FNm(f) {
 					case "addFields":
 						return "fields"
@@ -1105,10 +1221,10 @@ func c1Pairing(c *Ctx, rule string) {
 						}
 					}
 				}
-				if sc := StaticCallee(cl); sc != nil && writes[sc] && !frame[sc] {
+				if sc := StaticCallee(cl); sc != nil && writes[sc] && !frame[sc] && !returnsJSONEncoder(c, sc) {
 					return "w"
 				}
-				if !cl.Call.IsInvoke() && cl.Call.StaticCallee() == nil {
+				if !cl.Call.IsInvoke() && cl.Call.StaticCallee() == nil && CalleeFunc(cl) == nil && len(cl.Call.Args) > 0 {
 					if _, isB := cl.Call.Value.(*ssa.Builtin); !isB {
 						return "w" // a user sub-encoder: may write
 					}
@@ -2223,6 +2339,8 @@ func escapedBytes(v ssa.Value, depth int) bool {
 		return false
 	}
 	switch x := Strip(v).(type) {
+	case *ssa.Const:
+		return x.Value == nil // a nil slice: nothing is written
 	case *ssa.Call:
 		if f := CalleeFunc(x); f != nil && FNm(f) == "Bytes" && f.Pkg() != nil && f.Pkg().Path() == "go.uber.org/zap/buffer" {
 			if args := Args(x); len(args) == 1 {
@@ -2336,4 +2454,14 @@ func c1NoRecoverAroundStructure(c *Ctx, rule string) {
 		}
 	})
 	c.Check(len(bad) == 0 && n >= 2, rule, "recovering functions", "no-composite-under-recover", token.NoPos, "%d functions of the library recover from panics; none of them hands an encoder a composite (AddObject, AddArray, AppendObject, AppendArray, OpenNamespace) inside the protected region - a recovered panic would leave the opening delimiter unclosed: %v", n, bad)
+}
+
+// returnsJSONEncoder: h is a helper of zapcore whose single result is a *jsonEncoder (clone, cloneWith).
+func returnsJSONEncoder(c *Ctx, h *ssa.Function) bool {
+	je := c.Named(CorePath, "jsonEncoder")
+	if je == nil || h.Signature.Results().Len() != 1 || h.Object() == nil || h.Object().Exported() {
+		return false
+	}
+	n, _ := types.Unalias(deref(h.Signature.Results().At(0).Type())).(*types.Named)
+	return n != nil && n.Obj() == je.Obj()
 }
